@@ -20,7 +20,7 @@ RULE = ("scalars from boundary classes (1, 2, n-1, n-2, 2^k, 2^k-1, 1..31 leadin
         "negatives, byte strings of every length 0..40 except 32, checksummed WIFs carrying such scalars or wrong payload "
         "lengths; SEC rejection: x with no square root, x >= p, wrong y, every prefix byte 0..255, every length 0..70, hybrid "
         "with inconsistent parity; distinct = distinct (monitor, case) digests"
-        " EXTENSIONS: + from_point with hand-built off-curve / other-curve PointJacobi objects, secrets handed over in caller-owned buffers that are wiped afterwards, leading-zero X / Y corpora, every refusal repeated three times, extended private keys holding an out-of-range scalar: twelve first uses on fresh objects must each raise; use-time errors of accepted keys count")
+        " EXTENSIONS: + from_point with hand-built off-curve / other-curve PointJacobi objects, secrets handed over in caller-owned buffers that are wiped afterwards, leading-zero X / Y corpora, every refusal repeated three times, extended private keys holding an out-of-range scalar: twelve first uses on fresh objects must each raise; use-time errors of accepted keys count, wrong-length twins of keys the process has already constructed, SEC forms of points with a coordinate in [n, p)")
 LEVEL_TEXT = ("Every PrivateKey construction / wif / from_wif and PublicKey.parse / sec execution is compared with own "
               "secp256k1 arithmetic and an independent Base58Check codec; rejection is judged by outcome (must raise). "
               "Encodings that ecdsa additionally accepts (raw 64-byte, hybrid 06/07) are sound iff the returned point is the "
@@ -227,6 +227,41 @@ def judge_reject_node(ctx, case):
                      mech="C09.reject_scalar.node_use_accepted")
 
 
+def judge_reject_twin(ctx, case):
+    """A VALID key is constructed first (by value, bytes, WIF, or as the key of a parsed node that was used); then the same
+    integer is offered in a spelling of the wrong length (00-padded to 33 / 34 / 40 bytes, leading zero bytes stripped): the
+    wrong-length spelling must be refused whatever the process has seen before."""
+    from btc_hd_wallet.keys import PrivateKey
+    from btc_hd_wallet.bip32 import PrvKeyNode
+    k = case["k"]
+    k32 = k.to_bytes(32, "big")
+    try:
+        first = case["first"]
+        if first == "int":
+            PrivateKey(k).K.sec()
+        elif first == "bytes":
+            PrivateKey(k32).wif()
+        elif first == "wif":
+            PrivateKey.from_wif(rb58.encode_check(b"\x80" + k32 + b"\x01")).K.sec()
+        else:
+            node = PrvKeyNode(key=k32, chain_code=b"\x07" * 32)
+            node.fingerprint()
+            node.extended_private_key()
+    except Exception as e:  # noqa
+        return ctx.judge("reject_scalar", False, case, "valid key accepted", e, cls="twin|first-raised", mech="C09.reject_scalar.valid_refused")
+    twins = {"33:00||k": b"\x00" + k32, "34:0000||k": b"\x00\x00" + k32, "40": b"\x00" * 8 + k32}
+    stripped = k32.lstrip(b"\x00")
+    if len(stripped) < 32:
+        twins["stripped:%d" % len(stripped)] = stripped
+    res = True
+    for name, raw in sorted(twins.items()):
+        for via in ("ctor", "parse"):
+            ok, obs, outcome = refused(lambda: bytes(PrivateKey(raw) if via == "ctor" else PrivateKey.parse(raw)))
+            res = ctx.judge("reject_scalar", ok, dict(case, twin=name, via=via), "raise", obs, cls="twin|%s|%s|after-%s" % (name.split(":")[0], via, case["first"]),
+                            outcome=outcome, mech="C09.reject_scalar.wrong_length_twin_accepted") and res
+    return res
+
+
 def judge_reject_sec(ctx, case):
     from btc_hd_wallet.keys import PublicKey
     raw = case["raw"]
@@ -378,6 +413,12 @@ def run(ctx):
                 if ln == 33:
                     body = body[:-1] + b"\x02"
                 judge_reject_scalar(ctx, {"via": "wif", "payload": b"\xef" + body, "tag": "wif-len-nosuffix"})
+        # wrong-length twins of keys this process has already constructed
+        twin_ks = [1, 2, 255, 256, (1 << 248) - 1, (1 << 128) + 5] + [kk for _t, kk in lz_xy[:4]] + [rnd.randrange(1, N) for _ in range(4)] + [rnd.randrange(1, 1 << 200) for _ in range(3)]
+        for ti, tk in enumerate(twin_ks):
+            n += 1
+            if ctx.mine(n):
+                judge_reject_twin(ctx, {"k": tk, "first": ("int", "bytes", "wif", "node")[ti % 4]})
         # the same out-of-range scalars inside an extended private key, each first use on a fresh object
         for tag, v in (("0", 0), ("n", N), ("n+1", N + 1), ("2^256-1", (1 << 256) - 1), ("n+2^128", N + (1 << 128))):
             for use in NODE_USES:
@@ -391,6 +432,14 @@ def run(ctx):
             judge_reject_scalar(ctx, {"via": rnd.choice(["int", "from_int"]), "value": v, "tag": "rand>=n"})
             judge_reject_scalar(ctx, {"via": "wif", "payload": bytes([rnd.choice([0x80, 0xEF])]) + v.to_bytes(32, "big") + rnd.choice([b"\x01", b""]),
                                       "tag": "wif-rand>=n"})
+        # ---- SEC forms of points with a coordinate in [n, p) (committed corpus): legal keys, must come back as themselves
+        hc = gen.high_coordinate_points()
+        ctx.extra["high_coordinate_point_corpus"] = len(hc)
+        for pi, pt in enumerate(hc):
+            n += 1
+            if ctx.mine(n):
+                judge_reject_sec(ctx, {"raw": secp.ser(pt, True), "tag": "coordinate>=n"})
+                judge_reject_sec(ctx, {"raw": secp.ser(pt, False), "tag": "coordinate>=n"})
         # ---- SEC rejection / leniency
         for ln in range(0, 71):
             n += 1
@@ -450,6 +499,9 @@ def replay(ctx, monitor, case):
     elif monitor in ("wif_roundtrip", "probe.PrivateKey.wif", "probe.PrivateKey.__init__"):
         case.setdefault("ktag", "replay")
         judge_wif(ctx, case)
+    elif monitor == "reject_scalar" and "first" in case:
+        case.pop("twin", None), case.pop("via", None)
+        judge_reject_twin(ctx, case)
     elif monitor == "reject_scalar" and "use" in case:
         judge_reject_node(ctx, case)
     elif monitor == "reject_scalar":
